@@ -1503,4 +1503,83 @@ theorem signed_iff_assigned (valid : Sig → Key → Msg → Bool) (m : Msg) :
         · exact signed_skip ((ih keys (n + 1)).2 h)
         · exact signed_take hj hv ((ih _ n).2 h)
 
+/-! ## SIG_ALL: exact characterisation; the shared condition read declaratively -/
+
+theorem checkOutput_complete {env : Env} {s0 : Secret} {keys : List Key} {n : Nat} {o : Output}
+    (hu : ∀ m, o.msgDecoded = some m → UniqueSigner env.valid m keys)
+    (h : OutputSigned env s0 keys n o) : checkOutput env s0 keys n o = .ok () := by
+  obtain ⟨hkind, hj, hopen, m, hm, hnd, hs⟩ := h
+  have hd : duplicateSignatures o.witness.signatures = false := (duplicateSignatures_iff _).2 hnd
+  have hv := hasValidSignatures_complete _ _ _ _ _ (hu m hm) hs
+  unfold checkOutput
+  rcases hkind with hk | hk
+  · simp [hm, hk, hj, hd, hv]
+  · simp [hm, hk, hj, hd, hv, checkPreimage_of_opens (hopen hk)]
+
+theorem checkOutputs_complete {env : Env} {s0 : Secret} {keys : List Key} {n : Nat} :
+    ∀ {outs : List Output}, (∀ o ∈ outs, ∀ m, o.msgDecoded = some m → UniqueSigner env.valid m keys) →
+      (∀ o ∈ outs, OutputSigned env s0 keys n o) → checkOutputs env s0 keys n outs = .ok ()
+  | [], _, _ => rfl
+  | o :: rest, hu, h => by
+    unfold checkOutputs
+    rw [checkOutput_complete (hu o (by simp)) (h o (by simp))]
+    exact checkOutputs_complete (fun x hx => hu x (by simp [hx])) (fun x hx => h x (by simp [hx]))
+
+/-- verifyBlindedMessages accepts EXACTLY when the SIG_ALL demands are met (when a signature verifies under one key only). -/
+theorem verifyBlindedMessages_iff {env : Env} {proofs : List Proof} {outs : List Output}
+    (hu : ∀ keys, ∀ o ∈ outs, ∀ m, o.msgDecoded = some m → UniqueSigner env.valid m keys) :
+    verifyBlindedMessages env proofs outs = .ok () ↔ SigAllOK env proofs outs := by
+  refine ⟨verifyBlindedMessages_sound, ?_⟩
+  rintro ⟨s0, keys, n, ⟨p0, rest, rfl, hs0⟩, hall, houts⟩
+  obtain ⟨sq, t, hsq, _, hp, hk, hn⟩ := hall p0 (by simp)
+  rw [hs0] at hsq
+  cases hsq
+  have hshared : SharedCondition env (p0 :: rest) s0 keys n := ⟨⟨p0, rest, rfl, hs0⟩, hk, ⟨t, hp, hn⟩, hall⟩
+  rw [verifyBlindedMessages_of_shared hshared]
+  exact checkOutputs_complete (hu keys) houts
+
+/-- the key list nut11.PublicKeys computes, read declaratively: the last `pubkeys` tag, followed for a P2PK secret by the lock key -/
+theorem publicKeys_spec (env : Env) (s : Secret) (keys : List Key) :
+    publicKeys env s = .ok keys ↔
+      WellFormed env s.tags ∧
+      (if s.kind = .p2pk then ∃ k, env.parseKey s.data = some k ∧ keys = (condOf env s.tags).pubkeys ++ [k]
+       else keys = (condOf env s.tags).pubkeys) := by
+  unfold publicKeys
+  cases hp : parseTags env s.tags with
+  | err e =>
+    have : ¬ WellFormed env s.tags := (parseTags_err_iff env s.tags).1 ⟨e, hp⟩
+    simp [this]
+  | ok t =>
+    obtain ⟨hw, _, hpk, _, _⟩ := parseTags_cond hp
+    simp only [hw, true_and, ← hpk]
+    by_cases hk : s.kind = .p2pk
+    · simp only [hk, if_true]
+      cases hd : env.parseKey s.data with
+      | none => simp
+      | some k => simp [eq_comm]
+    · simp [hk, eq_comm]
+
+/-- the threshold the SIG_ALL check uses: max(1, n_sigs) -/
+theorem sigsRequired_spec {env : Env} {tags : List (List String)} {t : Tags} (h : parseTags env tags = .ok t) :
+    sigsRequired t = max 1 (condOf env tags).nSigs := by
+  obtain ⟨_, hn, _⟩ := parseTags_cond h
+  unfold sigsRequired
+  rw [← hn]
+  split <;> omega
+
+
+theorem sameCondition_spec (env : Env) (keys : List Key) (n : Nat) (q : Proof) :
+    SameCondition env keys n q ↔
+      ∃ sq, q.secret = some sq ∧ isSigAll sq = true ∧ WellFormed env sq.tags ∧
+        (if sq.kind = .p2pk then ∃ k, env.parseKey sq.data = some k ∧ keys = (condOf env sq.tags).pubkeys ++ [k]
+         else keys = (condOf env sq.tags).pubkeys) ∧
+        n = max 1 (condOf env sq.tags).nSigs := by
+  constructor
+  · rintro ⟨sq, t, hs, ha, hp, hk, hn⟩
+    obtain ⟨hw, hkeys⟩ := (publicKeys_spec env sq keys).1 hk
+    exact ⟨sq, hs, ha, hw, hkeys, by rw [← hn, sigsRequired_spec hp]⟩
+  · rintro ⟨sq, hs, ha, hw, hkeys, hn⟩
+    have hp := (parseTags_ok_iff env sq.tags _).2 ⟨hw, rfl⟩
+    exact ⟨sq, _, hs, ha, hp, (publicKeys_spec env sq keys).2 ⟨hw, hkeys⟩, by rw [hn, sigsRequired_spec hp]⟩
+
 end Gonuts.Lemmas.Spend
